@@ -314,7 +314,9 @@ impl<A: Read + Write + io::Seek> ZipWriter<A> {
             .map(|_| central_header_to_zip_file(&mut readwriter, archive_offset))
             .collect::<Result<Vec<_>, _>>()?;
 
-        let _ = readwriter.seek(io::SeekFrom::Start(directory_start)); // seek directory_start to overwrite it
+        // seek directory_start to overwrite it; a failure must not be ignored, or the new entries and
+        // directory would be written wherever the reader happened to stop
+        readwriter.seek(io::SeekFrom::Start(directory_start))?;
 
         Ok(ZipWriter {
             inner: GenericZipWriter::Storer(MaybeEncrypted::Unencrypted(readwriter)),
